@@ -39,13 +39,16 @@ def scale_family(run, fam, label, race=False):
     t = os.path.join(run.work, "scale.%s.ndjson" % fam)
     env = {"GORACE": "halt_on_error=0 atexit_sleep_ms=0 exitcode=0"} if race else None
     p = run.harness_cmd(["scale-record", "-fam", fam, "-out", t], "scale-" + fam, timeout=1800, race=race, env=env)
-    if race and "DATA RACE" in p.stderr:
+    fatal = "fatal error: concurrent map" in p.stderr
+    if (race and "DATA RACE" in p.stderr) or fatal:
         keep = os.path.join(run.root, "replays", run.pid)
         os.makedirs(keep, exist_ok=True)
         dst = os.path.join(keep, "race-%s.txt" % fam)
         open(dst, "w").write(p.stderr[-20000:])
-        run.violations.append({"aspect": "race", "fam": "scale." + fam, "text": "", "detail": "Go race detector: " + " | ".join(p.stderr.splitlines()[:8])[:400], "replay": dst})
+        run.violations.append({"aspect": "race", "fam": "scale." + fam, "text": "", "detail": ("Go runtime: fatal error: concurrent map access in the library" if fatal and "DATA RACE" not in p.stderr else "Go race detector: " + " | ".join(p.stderr.splitlines()[:8])[:400]), "replay": dst})
         run.viol_total = getattr(run, "viol_total", 0) + 1
+        if fatal:
+            return      # the Go runtime stopped the process (unsynchronised map access in the library): that is the verdict, there is no trace
     if p.returncode != 0:
         from infra import Infra
         raise Infra("scale-record failed: " + (p.stdout + p.stderr)[-800:])
@@ -98,6 +101,10 @@ def c03(run, tier):
 def c18(run, tier):
     paths_family(run, tier, "C18", "MC_C18.cfg", False, True, "paths", Q(tier, 5, 6), Q(tier, 5, 6))
     fixed_two_steps(run, VALUE_ASPECTS)
+    # a struct tag is a sub-query from the node the struct is filled from - context position 1, size 1, whatever slice the struct is
+    # an element of (MC_Unmarshal: tags position() / last() / relative and absolute paths in slice elements, nested and embedded members)
+    rep = run.tlc_gen_replay("MC_Unmarshal", run.cfg("MC_Unmarshal.cfg", {}, "gen.unmarshal.cfg"), "unmarshal-subqueries", timeout=600)
+    run.absorb(rep, VALUE_ASPECTS)
 
 
 def values_family(run, tier, fam, overrides=None):
@@ -116,6 +123,7 @@ def values_traces(run, tier):
 
 def c04(run, tier):
     values_family(run, tier, "C04n")
+    values_family(run, tier, "C04v")
     values_family(run, tier, "C04s", {"StrLen": Q(tier, 3, 4)})
     cfg = run.cfg("Gen_C01.cfg", {"MaxNodes": Q(tier, 4, 5), "EmitFam": '"C04"'}, "gen04.cfg")
     rep = run.tlc_gen_replay("MC_C01", cfg, "nodes", timeout=Q(tier, 300, 1800))
@@ -239,6 +247,8 @@ def c13(run, tier):
     run.absorb(rep, VALUE_ASPECTS)
     # repeats agree also on documents of tens of thousands of nodes (every query of the scale pool is evaluated twice)
     scale_family(run, "docs", "large-documents")
+    # ... and on sums of decimal fractions and of numbers of very different magnitude: 60 / 400 executions, one bit pattern
+    scale_family(run, "repeat", "repeated-evaluation")
 
 
 def session_replay(run, path):
@@ -294,7 +304,7 @@ def c14(run, tier):
     run.harness = race
     run.env["VERIF_CASE_CONC"] = "8"
     try:
-        for fam in Q(tier, ["C07t", "C07b", "C06", "C05"], ["C07t", "C07b", "C07u", "C07s", "C06", "C05", "C04n", "C04s"]):
+        for fam in Q(tier, ["C07t", "C07b", "C06", "C05"], ["C07t", "C07b", "C07u", "C07s", "C06", "C05", "C04n", "C04s", "C04v"]):
             cfg = run.cfg("MC_Values.cfg", {"Family": '"%s"' % fam}, "conc.%s.cfg" % fam)
             rep = run.tlc_gen_replay("MC_Values", cfg, "conc-" + fam, timeout=Q(tier, 600, 3000), harness_args=["-workers", "2"])
             run.absorb(rep, VALUE_ASPECTS)
